@@ -27,6 +27,17 @@ def _qt(n):
     return (n.get("type") or {}).get("qualType", "")
 
 
+def _file_of(n):
+    for key in ("loc", "range"):
+        l = n.get(key) or {}
+        if key == "range":
+            l = l.get("begin") or {}
+        for sub in (l, l.get("expansionLoc") or {}, l.get("spellingLoc") or {}):
+            if sub.get("file"):
+                return sub["file"]
+    return None
+
+
 def extract(units):
     """shape of the tree: structs, enums, functions (library units only)"""
     structs, enums, funcs = {}, [], {}
@@ -39,8 +50,10 @@ def extract(units):
             elif k == "EnumDecl":
                 ecs = [c for c in n.get("inner", []) or [] if c and c.get("kind") == "EnumConstantDecl"]
                 sig = [c["name"] for c in ecs]
+                fl = _file_of(n)
                 if sig and sig not in [e["names"] for e in enums]:
-                    enums.append({"tag": n.get("name"), "names": sig})
+                    ordinal = sum(1 for e in enums if e.get("file") == fl)
+                    enums.append({"tag": n.get("name"), "names": sig, "file": fl, "ordinal": ordinal})
             elif k == "FunctionDecl" and unit.startswith("src/") and any(c and c.get("kind") == "CompoundStmt" for c in n.get("inner", []) or []):
                 funcs[n["name"]] = {"unit": unit, "type": _qt(n), "static": n.get("storageClass") == "static"}
     return {"structs": structs, "enums": enums, "functions": funcs}
@@ -125,7 +138,8 @@ def normalise(units):
             if len(ce["names"]) != len(re_["names"]) or ce["names"] == re_["names"]:
                 continue
             same = sum(1 for a, b in zip(ce["names"], re_["names"]) if a == b)
-            if same < max(1, len(re_["names"]) * 2 // 3):
+            same_place = ce.get("file") is not None and ce.get("file") == re_.get("file") and ce.get("ordinal") == re_.get("ordinal")
+            if same < max(1, len(re_["names"]) * 2 // 3) and not (same_place and (same >= 1 or ce.get("tag") == re_.get("tag") is not None)):
                 continue
             allr = {x for e in ref["enums"] for x in e["names"]}
             allc = {x for e in cur["enums"] for x in e["names"]}
